@@ -293,6 +293,29 @@ def _bind(fn: ast.FunctionDef, call: ast.Call, drop_first: bool) -> Optional[Dic
     return out
 
 
+def _load_counts(fn: ast.AST) -> Dict[str, int]:
+    out: Dict[str, int] = {}
+    for n in ast.walk(fn):
+        if isinstance(n, ast.Name) and isinstance(n.ctx, ast.Load):
+            out[n.id] = out.get(n.id, 0) + 1
+    return out
+
+
+def _simple_operand(e: ast.AST) -> bool:
+    """Reading it twice is the same as reading it once: names, constants, attribute chains, constant subscripts of those."""
+    if isinstance(e, (ast.Name, ast.Constant)):
+        return True
+    if isinstance(e, ast.Attribute):
+        return _simple_operand(e.value)
+    if isinstance(e, ast.Subscript):
+        return _simple_operand(e.value) and _simple_operand(e.slice)
+    if isinstance(e, ast.UnaryOp):
+        return _simple_operand(e.operand)
+    if isinstance(e, (ast.Tuple, ast.List)):
+        return all(_simple_operand(x) for x in e.elts)
+    return False
+
+
 class Inliner:
     def __init__(self, prog, known: Set[str], max_rounds: int = 3):
         self.prog = prog
@@ -368,11 +391,13 @@ class Inliner:
         rebound = _assigned_names(fn)
         pre: List[ast.stmt] = []
         mapping: Dict[str, ast.AST] = {}
+        uses = _load_counts(fn)
         for p, v in binding.items():
-            if p in rebound:
+            if p in rebound or (uses.get(p, 0) > 1 and not _simple_operand(v)):
                 self._tmp += 1
                 t = f"{p}"
-                # the callee re-binds its parameter: bind the argument to the parameter's own name first
+                # the callee re-binds its parameter, or reads a computed argument more than once: bind the argument to
+                # the parameter's own name first (evaluated once, as in the call)
                 if not (isinstance(v, ast.Name) and v.id == p):
                     pre.append(ast.Assign(targets=[ast.Name(id=t, ctx=ast.Store())], value=clone(v), lineno=call.lineno, col_offset=0))
             else:
@@ -418,8 +443,9 @@ class Inliner:
         rebound = _assigned_names(fn)
         pre: List[ast.stmt] = []
         mapping: Dict[str, ast.AST] = {}
+        uses = _load_counts(fn)
         for p, v in binding.items():
-            if p in rebound:
+            if p in rebound or (uses.get(p, 0) > 1 and not _simple_operand(v)):
                 if not (isinstance(v, ast.Name) and v.id == p):
                     pre.append(ast.Assign(targets=[ast.Name(id=p, ctx=ast.Store())], value=clone(v), lineno=call.lineno, col_offset=0))
             else:
@@ -524,6 +550,25 @@ class Inliner:
             if hoisted:
                 host = st.lineno
                 _renumber(hoisted, host, int(host) if not isinstance(host, _Line) else host.shown)
+            if hoisted and isinstance(st, ast.Assign) and len(st.targets) == 1 and isinstance(st.targets[0], ast.Name) and isinstance(st.value, ast.Name) \
+                    and st.value.id == st.targets[0].id:
+                out.extend(hoisted)  # x = helper(...) whose returned local is itself called x
+                continue
+            # x = helper(...) where the helper returns its own local y: the absorbed body works on x directly
+            if hoisted and isinstance(st, ast.Assign) and len(st.targets) == 1 and isinstance(st.targets[0], ast.Name) and isinstance(st.value, ast.Name) \
+                    and st.value.id != st.targets[0].id:
+                x, y = st.targets[0].id, st.value.id
+                inside = {n.id for h in hoisted for n in ast.walk(h) if isinstance(n, ast.Name)}
+                bound = {n.id for h in hoisted for n in ast.walk(h) if isinstance(n, ast.Name) and isinstance(n.ctx, ast.Store)}
+                own = {id(n) for n in ast.walk(st)}
+                host_names = {n.id for n in ast.walk(fi.node) if isinstance(n, ast.Name) and id(n) not in own} | {a.arg for a in ast.walk(fi.node) if isinstance(a, ast.arg)}
+                if y in bound and x not in inside and y not in host_names:
+                    for h in hoisted:
+                        for n in ast.walk(h):
+                            if isinstance(n, ast.Name) and n.id == y:
+                                n.id = x
+                    out.extend(hoisted)
+                    continue
             # an expression statement whose value was a helper without return value
             if isinstance(st, ast.Expr) and isinstance(st.value, ast.Constant) and st.value.value is None and hoisted:
                 out.extend(hoisted)
@@ -568,5 +613,9 @@ class Inliner:
             if self.count == before:
                 break
             total = self.count
+            from .program import _SplatLiterals
+
+            for mi in self.prog.modules.values():
+                _SplatLiterals().visit(mi.tree)
             self.prog._reindex()
         return self.count
